@@ -19,6 +19,10 @@ CHECKS = {
          "bounded-exhaustive enumeration of descriptor lists x ExecFile placement x socketpair placement x vfork/non-vfork on real launches of a self-reporting probe, each configuration started twice; identity oracle on (st_dev, st_ino)",
          "Every descriptor list of length <=3 (thorough: <=4) over {close marker, caller fds 0,1,2, reserved low fds, high fds, the ExecFile number} x ExecFile in {none, low, high} x internal socketpair landing inside or above the listed range x vfork / non-vfork, started twice from the same Runner value; the program (static C probe) reports every open descriptor with (dev, ino, cloexec); slot i must be the i-th listed open file, marker slots closed, nothing else open, Runner deep-equal before/after, second start identical. Plus container.Execve with Files/ExecFile lists (sync before/after exec).",
          "The harness makes all of its own descriptors close-on-exec and only shapes descriptor numbers it reserved itself (Go runtime descriptors are never touched). Process creation does not scale on this VM (~450 launches/s in total), which bounds the alphabet; quick uses a reduced value alphabet."),
+ "C08": ("exploration",
+         "bounded-exhaustive enumeration of limit records, two-run container histories, overrun programs per runner and the collector's cap x volume x chunk grid on real launches; getrlimit self-report, status table and buffer bound as oracles",
+         "Every zero/non-zero pattern of the seven limit fields with CPUHard below/equal/above CPU (thorough: every field over {0, small, >2^32}) goes through PrepareRLimit into a real launch whose program reports getrlimit for all resources (configured ones exact, unconfigured ones equal to the launcher's); the same through container.Execve as all two-run histories over four limit records on one fresh container (sync before/after exec) and through the ptrace and namespace runners; CPU-limit, file-size-limit, time-bound and memory-bound overruns under every runner must give TLE/OLE/MLE with the measurements; the collector grid N in {0,1,2,4095,4096,65536} x volume in {0,N-1,N,N+1,N+2,N+65536,(16 MiB)} x chunk in {1,4096,1 MiB} must retain <= N+1 bytes, never block or break the writer, and close Done.",
+         "Namespace runner: its program is a pid-namespace init, SIGXCPU/SIGXFSZ are discarded by the kernel, so TLE comes from the hard-limit SIGKILL and OLE is not expected there. The container runner has no time/memory bound of its own (measurements only). 'Writer faster than reader' as a timing sweep is sampling and not claimed."),
  "C09": ("exploration",
          "exhaustive enumeration of the finite domain (exit codes x terminating signals x faults x child variants x 4 runner set-ups) on real runs, against the documented status table",
          "Every exit code (quick: 6 representatives, thorough: 0..255), every signal 1..64 whose default action terminates (self-raised with a raw kill and default disposition), five kernel-forced faults, SIGKILL from the host while the program runs, and main-process endings combined with a child that exits / is signalled before, while or after the main process ends, under the ptrace runner, the namespace runner, and a container with sync before and after exec; result status and exit value compared with the README table.",
